@@ -1128,9 +1128,10 @@ pub fn generate(family: &str, seed: u64, count: usize, emit: &mut dyn FnMut(Stri
             for sq in seqs {
                 if sq.len() < 2 { continue; }
                 for j in 1..sq.len() {
-                    for (style, raw_first) in [(0, true), (1, true), (0, false), (1, false)] {
+                    // (style 2: the escaped blank, which denotes nothing, between the two parts)
+                    for (style, raw_first) in [(0, true), (1, true), (0, false), (1, false), (2, true)] {
                         let esc = |bs: &[u8]| -> Vec<u8> { bs.iter().flat_map(|b| if style == 0 { format!("\\x{:02x}", b).into_bytes() } else { format!("\\{:o}", b).into_bytes() }).collect() };
-                        let mid: Vec<u8> = if raw_first { [sq[..j].to_vec(), esc(&sq[j..])].concat() } else { [esc(&sq[..j]), sq[j..].to_vec()].concat() };
+                        let mid: Vec<u8> = if style == 2 { [sq[..j].to_vec(), b"\\ ".to_vec(), sq[j..].to_vec()].concat() } else if raw_first { [sq[..j].to_vec(), esc(&sq[j..])].concat() } else { [esc(&sq[..j]), sq[j..].to_vec()].concat() };
                         for (pre, post) in [(&b"\""[..], &b"\""[..]), (b"\"\xce\xbb", b"\\ z\"")] {
                             let t = [pre.to_vec(), mid.clone(), post.to_vec()].concat();
                             for ro in [R_DEFAULT, R_ELISP] { emit(parse_op("b", ro, "r:v:4", &t)); }
